@@ -690,7 +690,8 @@ def extend(ctx, res: RunResult, pid: str, extra_cases: list[dict] | None = None)
             res.violations.append(v)
     # candidate invariants (premises of the engine theorems) evaluated by the oracle on every visited state
     inv_names = ["running_task_in_running_stage", "not_started_stage", "suspended", "start_task_msg", "sequential", "one_active",
-                 "complete_stage", "ids", "started_flag", "mutex", "choice", "plan_pending", "wf_not_started"]
+                 "complete_stage", "ids", "started_flag", "mutex", "choice", "plan_pending", "wf_not_started",
+                 "start_task_exclusive", "complete_stage_msg", "not_started_no_msgs", "running_task_token"]
     inv_fail: dict = {}
     for (ci, ai, cl) in INV_FAILS:
         for c in cl.split(","):
